@@ -45,6 +45,11 @@ def _wrapper(name, fn_qual, uses, dims=("pos", "freq", "dir"), kwargs=None, twod
             import numpy as np
 
             da = c.spectrum(dims, min_nf=3, min_nd=2)
+            # the generated spectra live on a small alphabet (many exact ties between bins and between
+            # frequency-summed totals); which of two tied maxima wins is decided by the rounding of the
+            # summation order, which chunking legitimately changes.  A per-bin jitter removes the ties.
+            jit = np.random.default_rng(c.rng.randint(0, 2**31)).uniform(1.0, 1.05, da.shape)
+            da = da * jit
             ch = {d: c.rng.choice([1, 2, -1]) for d in da.dims}
             dk = da.chunk(ch)
             got = c.call(dk, **(kwargs or {})).compute()
